@@ -651,7 +651,8 @@ def _kernel_invariant(ctx, label, placements, l2v, machine, vr, live,
 def h_place(ctx, placer, dims=(2, 1), nv=2, nres=1, dead=None, exc=None,
             nets="none", cons=(), sparse=False, rev=False, nowrap=False,
             complete=False, rng="sym", mseed=0, order=None, effort=0.0,
-            bf=True, stop=True, hperm=False, ck=False, exc_rev=False):
+            bf=True, stop=True, hperm=False, ck=False, exc_rev=False,
+            again=None):
     from rig.place_and_route.exceptions import (
         InsufficientResourceError, InvalidConstraintError)
     import random as real_random
@@ -765,6 +766,31 @@ def h_place(ctx, placer, dims=(2, 1), nv=2, nres=1, dead=None, exc=None,
     ctx.witness("placed")
     ctx.prove(not sc.expect_invalid, "location-on-unavailable-chip-accepted")
     _check_placement(ctx, sc, p)
+    if again is not None:
+        # the caller's objects, handed to a second placer: the first call
+        # must have left them usable (and the result is checked again)
+        mod2 = _mod("sa.algorithm" if again == "sa" else again)
+        kw2 = {}
+        if again == "sa":
+            pk = _mod("sa.python_kernel")
+            kw2 = dict(random=SymRandom(ctx, max_randint=4), effort=0.0,
+                       kernel=pk.PythonKernel,
+                       kernel_kwargs={"no_warn": True})
+        try:
+            with _det_merged():
+                p2 = mod2.place(sc.vr, sc.nets, sc.machine, sc.constraints,
+                                **kw2)
+        except InsufficientResourceError:
+            ctx.observe("again: InsufficientResourceError")
+            return
+        except Exception as e:
+            ctx.observe("again", type(e).__name__)
+            ctx.prove(False, "second-placer-call-unexpected-exception",
+                      "%s after %s: %s: %s" % (again, placer,
+                                               type(e).__name__, e))
+            return
+        ctx.witness("placed-again")
+        _check_placement(ctx, sc, p2)
 
 
 # ----------------------------------------------------------------------
@@ -975,6 +1001,13 @@ def units(tier, seed):
         nres=1, nets="chain", cons=("loc", "same12"), effort=0.1,
         nowrap=True, wit=KB, split=7)
 
+    # two placers, one after the other, on the same caller-owned objects
+    add("hilbert", "then rcm on the same objects: group member as sink",
+        dims=(2, 2), nv=3, nres=1, nets="fan", cons=("same12", "resl"),
+        again="rcm", wit=("placed", "placed-again"), split=5)
+    add("sequential", "then sa on the same objects: chain groups",
+        dims=(2, 1), nv=3, nres=1, nets="chain", cons=("chain",),
+        again="sa", wit=("placed", "placed-again"), split=5)
     # the C kernel's Python side (marshalling into / out of the library)
     CK = ("placed", "c-kernel-moved")
     add("sa", "C kernel 2x1 two resources, exception", dims=(2, 1), nv=3,
